@@ -74,7 +74,7 @@ def classify(res):
         return "other"
     if ft["name"] == "Read config":
         return "parse"
-    if ft["name"] == "Compile" and all("version" in e for e in rep.errors):
+    if ft["name"] == "Compile":          # the configuration is valid apart from its version: whatever Compile reports is the gate
         return "version"
     return "other:" + ft["name"]
 
